@@ -11,6 +11,9 @@ CORPUS = [
     ("(str 4)", "(s 61626364656667)", [0, 2, 2, 1, 0, 2, 0, 0]),     # D3: nested constructed segments
     ("(set (r int) (r bool))", "(seq (i 5) (b 1))", [0, 1, 0, 0, 3, 7, 0]),
     ("bits", "(bits 101010101010101010101)", [0, 1, 1, 1]),
+    ("(str 4)", "(s 616263)", [30, 0]),                               # 8 length octets
+    ("(str 4)", "(s 616263)", [34, 0]),                               # 9 length octets (more than a machine word)
+    ("(seq (r int) (r (str 4)))", "(seq (i 7) (s 7879))", [478, 0, 2, 0, 478, 0, 0]),   # 121 length octets, nested
 ]
 
 
@@ -77,7 +80,12 @@ def run(rep, tier, seed):
     for case in engine.gen_cases(rng, n, max_depth=3, allow_any=True, any_ber=True):
         if not engine.representable(case):
             continue
-        scripts = [[rng.randrange(0, 12) for _ in range(rng.choice([4, 16, 60]))] for _ in range(per)]
+        def pick():
+            # mostly small choice numbers; now and then a long run of redundant leading zero octets in a length
+            # (choice numbers >= 4 select the count: up to 126 length octets in all)
+            x = rng.randrange(0, 12)
+            return x + 4 * rng.choice([1, 5, 6, 7, 30, 118, 119]) if rng.random() < 0.15 else x
+        scripts = [[pick() for _ in range(rng.choice([4, 16, 60]))] for _ in range(per)]
         rep.case(case.canon + ' ' + str(scripts[0][:8]), nontrivial=gen.nontrivial(case.t),
                  sample={'type': gen.ty_sexp(case.t)[:300], 'value': gen.val_sexp(case.v)[:300], 'script': scripts[0][:20]})
         check_case(rep, drv, case, scripts)
